@@ -133,6 +133,17 @@ def _run_mc_models(names, workdir, tier):
             continue
         if tier == "thorough" and m.get("quick_only"):
             continue
+        if m.get("tlaps"):
+            # a TLAPS proof: the proof module and the module it is about are copied next to each other
+            md = os.path.join(workdir, "mc_" + name)
+            os.makedirs(md, exist_ok=True)
+            logf = os.path.join(workdir, "mc_" + name + ".log")
+            shutil.copy(os.path.join(SPEC, "proofs", m["tlaps"]), md)
+            shutil.copy(os.path.join(SPEC, m["module"]), md)
+            f = open(logf, "w")
+            p = subprocess.Popen(["tlapm", "--threads", "4", m["tlaps"]], stdout=f, stderr=subprocess.STDOUT, cwd=md)
+            procs.append((name, m, p, f, logf, time.time()))
+            continue
         if m.get("apalache"):
             md = os.path.join(workdir, "mc_" + name)
             os.makedirs(md, exist_ok=True)
@@ -165,6 +176,15 @@ def _run_mc_models(names, workdir, tier):
             raise ToolError("TLC model %s timed out after %ds" % (name, limit))
         f.close()
         text = open(logf, errors="replace").read()
+        if m.get("tlaps"):
+            mm = re.search(r"All (\d+) obligations? proved", text)
+            if p.returncode != 0 or not mm:
+                results[name] = {"ok": False, "kind": "failed", "log": logf, "tail": "\n".join(text.splitlines()[-30:])}
+            else:
+                results[name] = {"ok": True, "generated": int(mm.group(1)), "distinct": int(mm.group(1)), "coverage": {}, "missing_actions": [],
+                                 "replay": [], "wall_s": round(time.time() - t0, 1), "log": logf, "tlaps_obligations": int(mm.group(1))}
+                log("tlaps %s: all %s obligations proved, %.1fs" % (name, mm.group(1), time.time() - t0))
+            continue
         if m.get("apalache"):
             if p.returncode != 0 or "EXITCODE: OK" not in text:
                 results[name] = {"ok": False, "kind": "failed", "log": logf, "tail": "\n".join(text.splitlines()[-30:])}
